@@ -45,7 +45,10 @@ def native_beyond_known(path, rec, findings, qual, replay_mod):
     function raises on the generated inputs -- because no obligation name is available: the search is told to pass over failures
     of those classes (and reports that it met them) so that every other kind of failure is still found and reported.
     -> (native result, listed findings met)"""
-    mine = [f for f in findings if (f.get("unit") or "").split("[")[0] == (qual or "")]
+    # the native searches exercise a class as a whole (construct, draw, re-point ...): the listed findings of every function of
+    # the class count, whichever of its functions is the undecided one
+    klass = (qual or "").split(".")[0]
+    mine = [f for f in findings if (f.get("unit") or "").split(".")[0] == klass]
     excs = sorted({m.group(1) for m in (re.match(r"noexc\.([A-Za-z]+)", f.get("obligation") or "") for f in mine) if m})
     if excs:
         rec["known_exceptions"] = excs
@@ -276,7 +279,10 @@ def finish(prop, tier, seed, results, reg, table, wall, timeout_ms):
             "violations": violations,
             "exit_status": status,
         },
-        "assumptions": trusted + SEMANTIC_ASSUMPTIONS,
+        "assumptions": trusted + SEMANTIC_ASSUMPTIONS + (
+            ["fields outside the contracts, auto-declared from their constant initialisation in __init__ (no frame condition or "
+             "invariant speaks about them; assumed overwritten by every call and loop): " + "; ".join(getattr(reg, "auto_notes", []))]
+            if getattr(reg, "auto_notes", None) else []),
         "wall_s": round(wall, 3),
         "violations": len(violations),
     }
